@@ -171,6 +171,11 @@ func c17BuildTarget(rng *rand.Rand, nProbe, nProbeN int) string {
 			site(fmt.Sprintf("probe(%s, %s)", a.src, b.src), a.generic || b.generic)
 		}
 	}
+	// integer constants of which exactly one (both, none) lies outside the int64 range, in both operand positions
+	for _, body := range []string{"probe(5, u64c)", "probe(u64c, 7)", "probe(u64c, u64c)", "probe(c5, u64c + 1)", "probe(-3, u64c)", "probe(u64c, -3)",
+		"probeN(u64c, 1, 2)", "probeN(2, u64c, 1)", "probeN(2, 1, u64c)"} {
+		site(body, false)
+	}
 	// function-local types of one name and different sizes (their types.Type.String() is the same text)
 	for _, body := range []string{
 		"type tc struct{ a int8 }\n\tvar v tc\n\tprobe(v, v)",
